@@ -25,10 +25,10 @@ type Fact struct {
 type AcceptKind int
 
 const (
-	AcceptNilErr   AcceptKind = iota // last result of type error may be nil
-	AcceptTrueBool                   // (first) bool result may be true
-	AcceptAny                        // every normal return
-	AcceptNonNilPtr                  // first pointer result may be non-nil
+	AcceptNilErr    AcceptKind = iota // last result of type error may be nil
+	AcceptTrueBool                    // (first) bool result may be true
+	AcceptAny                         // every normal return
+	AcceptNonNilPtr                   // first pointer result may be non-nil
 )
 
 type GuardSpec struct {
